@@ -536,7 +536,13 @@ fn recover(
     }
 
     // The replayed pages must be durable before the WAL, the only other copy of them, goes away.
+    #[cfg(feature = "verif-hooks")]
+    let vt = crate::verif::before(crate::verif::IoOp::Fsync {
+        fd: ht_fd.as_raw_fd(),
+    })?;
     ht_fd.sync_all()?;
+    #[cfg(feature = "verif-hooks")]
+    crate::verif::after(vt, true);
 
     // Finally, we collapse the WAL file and fsync.
     writeout::truncate_wal(wal_fd, true)?;
